@@ -197,3 +197,80 @@ def install(ex):
         return None
 
     ex.hooks.setdefault("getattr_ref", []).append(sg_props)
+
+
+# =================================================================================================
+# RectilinearGrid: memoised data_shape / data_size follow the data location (C14.3)
+# =================================================================================================
+SHAPE_OF = z3.Function("shape_for_location", sv.IntS, sv.IntS, sv.OpaqueS)   # StructuredGrid.data_shape for (grid, location)
+SIZE_OF = z3.Function("size_for_location", sv.IntS, sv.IntS, sv.IntS)
+
+
+def none_or_eq(v, expr):
+    """the optional value is None or equals expr"""
+    return Or(*[(g if isinstance(x, sv.SNone) else And(g, x.e == expr)) for g, x in sv.alts_of(v)])
+
+
+def some_eq(v, expr):
+    """the optional value is set and equals expr"""
+    return Or(*[And(g, x.e == expr) for g, x in sv.alts_of(v) if not isinstance(x, sv.SNone)])
+
+
+def register_memo(reg):
+    RG = "finam.data.grid_spec.RectilinearGrid"
+    f = reg.field
+    f("_data_location", Int)
+    f("_data_shape", TOpt(TObj("shape")), "RectilinearGrid")
+    f("_data_size", TOpt(Int), "RectilinearGrid")
+    DS, DZ = "RectilinearGrid._data_shape", "RectilinearGrid._data_size"
+
+    def memo_inv(ctx, g):
+        loc = ctx.get(g, "_data_location").e
+        ds, dz = ctx.get(g, DS), ctx.get(g, DZ)
+        return And(none_or_eq(ds, SHAPE_OF(g.e, loc)), none_or_eq(dz, SIZE_OF(g.e, loc)))
+
+    # the un-memoised values (StructuredGrid.data_shape / Grid.data_size): functions of the grid and its *current* location
+    reg.add(Contract(f"{SG}.data_shape", self_cls="RectilinearGrid", pure=True, verify=False,
+                     result_fn=lambda ctx: sv.SObj(SHAPE_OF(ctx.self.e, ctx.get(ctx.self, "_data_location").e), "shape"),
+                     note="value of the parent property: decided by the bounded stand-in bnd_grids.py (C14.2)"))
+    reg.add(Contract(f"{G}.Grid.data_size", self_cls="RectilinearGrid", pure=True, verify=False,
+                     result_fn=lambda ctx: sv.SInt(SIZE_OF(ctx.self.e, ctx.get(ctx.self, "_data_location").e))))
+    reg.add(Contract("finam.data.grid_spec._check_location", params={"grid": TRef("RectilinearGrid"), "data_location": Int}, pure=True,
+                     verify=False, result_fn=lambda ctx: ctx.data_location, raises={"ValueError": lambda ctx: z3.BoolVal(True)},
+                     note="assumed: returns the location if it is valid for the grid class, else ValueError"))
+
+    from .base import is_none, strip_none
+    reg.add(Contract(
+        f"{RG}.data_shape", self_cls="RectilinearGrid", props=["C14.3"], params={}, result=TOpt(TObj("shape")),
+        requires=lambda ctx: memo_inv(ctx, ctx.self),
+        ensures=lambda ctx, r: And(some_eq(r, SHAPE_OF(ctx.self.e, ctx.get(ctx.self, "_data_location").e)), memo_inv(ctx, ctx.self)),
+        modifies=lambda ctx: [(ctx.self, DS), (ctx.self, DZ)],
+    ))
+    reg.add(Contract(
+        f"{RG}.data_size", self_cls="RectilinearGrid", props=["C14.3"], params={}, result=TOpt(Int),
+        requires=lambda ctx: memo_inv(ctx, ctx.self),
+        ensures=lambda ctx, r: And(some_eq(r, SIZE_OF(ctx.self.e, ctx.get(ctx.self, "_data_location").e)), memo_inv(ctx, ctx.self)),
+        modifies=lambda ctx: [(ctx.self, DS), (ctx.self, DZ)],
+    ))
+    reg.add(Contract(
+        f"{RG}.data_location.setter", self_cls="RectilinearGrid", props=["C14.3"], params={"data_location": Int},
+        requires=lambda ctx: memo_inv(ctx, ctx.self),
+        ensures=lambda ctx, r: And(ctx.get(ctx.self, "_data_location").e == ctx.data_location.e, memo_inv(ctx, ctx.self)),
+        modifies=lambda ctx: [(ctx.self, "_data_location"), (ctx.self, DS), (ctx.self, DZ)],
+        raises={"ValueError": lambda ctx: z3.BoolVal(True)}, name="data_location.setter",
+    ))
+
+
+_reg_base = register
+
+
+def register(reg):  # noqa: F811
+    _reg_base(reg)
+    register_memo(reg)
+
+
+_BG = {"name": "grid-layouts", "script": "replay/drivers/bnd_grids.py", "args": ["--json"], "timeout": 3000}
+BOUNDED = {"C14": [_BG], "C15": [_BG]}
+REPLAY = {f"{SG}.to_canonical": "bnd_grids.py", f"{SG}.from_canonical": "bnd_grids.py",
+          "finam.data.grid_spec.RectilinearGrid.data_shape": "bnd_grids.py", "finam.data.grid_spec.RectilinearGrid.data_size": "bnd_grids.py",
+          "finam.data.grid_spec.RectilinearGrid.data_location.setter": "bnd_grids.py"}
